@@ -55,6 +55,11 @@ class Hooks:
     def global_name(self, modname, name, interp):
         if name == 'convert_index_to_line_col':
             return Fn(lambda *a: (0, 0))
+        if name in ('logger', 'logging'):
+            class Null(AbsObj):
+                def getattr_(self, a, interp):
+                    return Fn(lambda *a, **k: None)
+            return Null()
         if name == 'DebugNodeRecord':
             def mk(**kw):
                 r = Rec(**kw)
